@@ -609,6 +609,18 @@ pub fn pattern_byte(i: usize) -> u8 {
 /// The generator payload: N pattern bytes (a newline at every E-th position if
 /// E > 0) followed by T newlines.
 pub fn payload(n: usize, t: usize, e: usize) -> Vec<u8> {
+    // E = 7777 / 7778 / 7779: N bytes of a 2- / 3- / 4-byte character (after N mod width ASCII
+    // bytes), so that characters straddle every buffer boundary
+    if (7777..=7779).contains(&e) {
+        let ch = ["é", "€", "😀"][e - 7777];
+        let w = ch.len();
+        let mut data = vec![b'a'; n % w];
+        for _ in 0..n / w {
+            data.extend_from_slice(ch.as_bytes());
+        }
+        data.extend(std::iter::repeat_n(b'\n', t));
+        return data;
+    }
     let mut data: Vec<u8> = (0..n)
         .map(|i| if e > 0 && i % e == e - 1 { b'\n' } else { pattern_byte(i) })
         .collect();
